@@ -19,11 +19,13 @@ import (
 	"encoding/json"
 	"fmt"
 	"os"
+	"os/signal"
 	"path/filepath"
 	"sort"
 	"strings"
 	"sync"
 	"sync/atomic"
+	"syscall"
 	"time"
 
 	"github.com/basekick-labs/arc/internal/auth"
@@ -142,10 +144,10 @@ func buildSeed(mode int, seed []int) *seeded {
 	w.am.Close()
 	b, err := os.ReadFile(w.path)
 	if err != nil {
-		ev.Unbound("seed template: " + err.Error())
+		unbound("seed template: " + err.Error())
 	}
 	if _, err := os.Stat(w.path + "-wal"); err == nil {
-		ev.Unbound("seed template still has a WAL file after Close")
+		unbound("seed template still has a WAL file after Close")
 	}
 	os.Remove(w.path)
 	os.Remove(w.path + "-shm")
@@ -160,11 +162,11 @@ func newWorld(mode int, from *seeded) *world {
 		w.org, w.team, w.role, w.mp, w.tok, w.tokVal = from.org, from.team, from.role, from.mp, from.tok, from.tokVal
 	}
 	if err := os.WriteFile(w.path, file, 0o600); err != nil {
-		ev.Unbound("scratch: " + err.Error())
+		unbound("scratch: " + err.Error())
 	}
 	am, err := auth.NewAuthManager(w.path, time.Hour, 100, zerolog.Nop())
 	if err != nil {
-		ev.Unbound("NewAuthManager: " + err.Error())
+		unbound("NewAuthManager: " + err.Error())
 	}
 	w.am = am
 	w.rm = auth.NewRBACManager(&auth.RBACManagerConfig{DB: am.GetDB(), LicenseClient: lic, Logger: zerolog.Nop(),
@@ -212,6 +214,12 @@ func (p proposer) Propose(_ context.Context, ct uint8, payload []byte, _ time.Du
 		return fmt.Errorf("%w: %w", auth.ErrApplyFailed, e) // cluster.wrapApplyError
 	}
 	return nil
+}
+
+// unbound removes the scratch directory before reporting that the harness cannot bind (exit 2).
+func unbound(msg string) {
+	os.RemoveAll(root)
+	ev.Unbound(msg)
 }
 
 func note(err error) {
@@ -294,14 +302,14 @@ ORDER BY 1, 2`
 func readTables(db *sql.DB) (t tables) {
 	rows, err := db.Query(dumpSQL)
 	if err != nil {
-		ev.Unbound("dump query: " + err.Error())
+		unbound("dump query: " + err.Error())
 	}
 	defer rows.Close()
 	var kind int
 	var v [5]sql.NullString
 	for rows.Next() {
 		if err := rows.Scan(&kind, &v[0], &v[1], &v[2], &v[3], &v[4]); err != nil {
-			ev.Unbound("dump scan: " + err.Error())
+			unbound("dump scan: " + err.Error())
 		}
 		r := [5]string{v[0].String, v[1].String, v[2].String, v[3].String, v[4].String}
 		switch kind {
@@ -320,7 +328,7 @@ func readTables(db *sql.DB) (t tables) {
 		}
 	}
 	if err := rows.Err(); err != nil {
-		ev.Unbound("dump rows: " + err.Error())
+		unbound("dump rows: " + err.Error())
 	}
 	return
 }
@@ -427,7 +435,9 @@ func (w *world) key() string {
 	dead := map[string][]int64{}
 	render := func() []string {
 		n := w.namer(dead)
-		nI := func(f func(string) string) func(int64) string { return func(id int64) string { return f(fmt.Sprint(id)) } }
+		nI := func(f func(string) string) func(int64) string {
+			return func(id int64) string { return f(fmt.Sprint(id)) }
+		}
 		Ki, Oi, Ti, Ri, Pi := nI(n.K), nI(n.O), nI(n.T), nI(n.R), nI(n.P)
 		var l []string
 		for _, e := range perm {
@@ -742,7 +752,7 @@ func (w *world) freshReal() ref {
 	stats.freshOpens.Add(1)
 	am, err := auth.NewAuthManager(w.path, time.Hour, 100, zerolog.Nop())
 	if err != nil {
-		ev.Unbound("fresh NewAuthManager: " + err.Error())
+		unbound("fresh NewAuthManager: " + err.Error())
 	}
 	cfg := &auth.RBACManagerConfig{DB: am.GetDB(), LicenseClient: lic, Logger: zerolog.Nop(), CacheTTL: time.Hour}
 	r := ref{make([]byte, len(probes)), make([]byte, len(probes))}
@@ -1048,35 +1058,49 @@ func report(sc *scenario, hist []int, c int, nf map[string][]string) {
 func main() {
 	run := ev.Start("C20", "model_checking")
 	quick := run.Quick()
+	if !quick && os.Getenv("VERIF_DEADLINE_S") == "" {
+		if d := time.Now().Add(13 * time.Minute); d.Before(run.Deadline) {
+			run.Deadline = d // thorough budget is 15 min; a capped run reports exhaustive=false
+		}
+	}
 	if err := os.MkdirAll(root, 0o700); err != nil {
-		ev.Unbound(err.Error())
+		unbound(err.Error())
 	}
 	defer os.RemoveAll(root)
 	exit := func() { os.RemoveAll(root) }
+	sig := make(chan os.Signal, 1)
+	signal.Notify(sig, os.Interrupt, syscall.SIGTERM, syscall.SIGPIPE, syscall.SIGHUP)
+	go func() { <-sig; os.RemoveAll(root); os.Exit(130) }()
 	// template database: migrations run once
 	{
 		p := filepath.Join(root, "template.db")
 		am, err := auth.NewAuthManager(p, time.Hour, 100, zerolog.Nop())
 		if err != nil {
 			exit()
-			ev.Unbound("template: " + err.Error())
+			unbound("template: " + err.Error())
 		}
 		am.Close()
 		if tmpl, err = os.ReadFile(p); err != nil || len(tmpl) == 0 {
 			exit()
-			ev.Unbound("template read")
+			unbound("template read")
 		}
 		if _, err := os.Stat(p + "-wal"); err == nil {
 			exit()
-			ev.Unbound("template database still has a WAL file after Close")
+			unbound("template database still has a WAL file after Close")
 		}
 		w := newWorld(direct, nil)
 		ok := w.rm.IsRBACEnabled()
 		w.close()
 		if !ok {
 			exit()
-			ev.Unbound("licence seam: RBACManager.IsRBACEnabled() is false")
+			unbound("licence seam: RBACManager.IsRBACEnabled() is false")
 		}
+	}
+
+	if run.Replay != "" {
+		replay(run)
+		exit()
+		run.Finish()
 	}
 
 	hierarchy := idx("createOrg(O1)", "createOrg(O2)", "createTeam(T1)", "createTeam(T2)", "createRole(R1,*,read)", "createRole(R2,db1,read+write)",
@@ -1085,7 +1109,7 @@ func main() {
 	creates := matching(func(n string) bool { return hasAny(n, "create", "addMember") })
 	// focused alphabets (every one explored to the full depth bound)
 	tokensA := matching(func(n string) bool {
-		return hasAny(n, "Token", "Member(K1,T1)", "Member(K2,T1)", "setRolePerms(R1", "setTeamEnabled(T1")
+		return hasAny(n, "Token", "Member(K1,T1)", "Member(K2,T2)", "Member(K2,T1)")
 	})
 	teamsA := matching(func(n string) bool {
 		return hasAny(n, "(T1", "(R1", "(P1", "Member(K1,T1)", "Member(K2,T1)", "setTokenPerms(K1")
@@ -1093,16 +1117,24 @@ func main() {
 	orgsA := matching(func(n string) bool {
 		return hasAny(n, "Org(", "OrgEnabled(", "createTeam", "deleteTeam", "createRole", "addMember(K1,T1)", "addMember(K2,T2)", "addMember(K2,T1)", "setTokenPerms(K1,none)")
 	})
+	type spec struct {
+		name   string
+		seed   []int
+		alpha  []int
+		dq, dt int
+	}
+	specs := []spec{
+		{"E:build-up from empty", nil, creates, 5, 8},
+		{"C:team-role-measurement ops from full hierarchy", hierarchy, teamsA, 4, 5},
+		{"D:organization cascade ops from full hierarchy", hierarchy, orgsA, 4, 6},
+		{"B:token and membership ops from full hierarchy", hierarchy, tokensA, 4, 5},
+		{"A:all ops from full hierarchy", hierarchy, all, 2, 3},
+	}
 	var scs []*scenario
-	for mode := 0; mode < 2; mode++ {
-		m := modeName[mode]
-		scs = append(scs,
-			&scenario{name: m + "/A:all ops from full hierarchy", mode: mode, seed: hierarchy, alpha: all, depth: pick(quick, 2, 3)},
-			&scenario{name: m + "/B:token ops from full hierarchy", mode: mode, seed: hierarchy, alpha: tokensA, depth: pick(quick, 4, 5)},
-			&scenario{name: m + "/C:team-role-measurement ops from full hierarchy", mode: mode, seed: hierarchy, alpha: teamsA, depth: pick(quick, 3, 4)},
-			&scenario{name: m + "/D:organization cascade ops from full hierarchy", mode: mode, seed: hierarchy, alpha: orgsA, depth: pick(quick, 4, 5)},
-			&scenario{name: m + "/E:build-up from empty", mode: mode, alpha: creates, depth: pick(quick, 5, 7)},
-		)
+	for _, sp := range specs {
+		for mode := 0; mode < 2; mode++ {
+			scs = append(scs, &scenario{name: modeName[mode] + "/" + sp.name, mode: mode, seed: sp.seed, alpha: sp.alpha, depth: pick(quick, sp.dq, sp.dt)})
+		}
 	}
 	if f := os.Getenv("VERIF_C20_ONLY"); f != "" {
 		var keep []*scenario
@@ -1114,7 +1146,7 @@ func main() {
 		scs = keep
 	}
 
-	samples := ev.NewSamples(6)
+	samples := ev.NewSamples(10)
 	distinct := sync.Map{}
 	totalStates, totalTrans := 0, int64(0)
 	complete := true
@@ -1124,6 +1156,7 @@ func main() {
 		t0 := time.Now()
 		sc.start = buildSeed(sc.mode, sc.seed)
 		var disabled atomic.Int64
+		var sampled atomic.Bool
 		res := xstate.BFS(xstate.Config{NCmds: len(sc.alpha), MaxDepth: sc.depth, Stop: run.TimeUp,
 			Expand: func(hist []int, wantKey string, leaf bool, visit func(int, string)) {
 				if leaf {
@@ -1136,8 +1169,9 @@ func main() {
 					}
 					report(sc, hist, c, nf)
 					distinct.Store(decisions, true)
-					if len(hist)+1 == sc.depth {
-						samples.Add(map[string]any{"scenario": sc.name, "history": names(append(append([]int{}, hist...), c)), "fresh_decisions": decisions})
+					if len(hist)+1 == sc.depth && strings.Contains(decisions, "A") && strings.Contains(decisions, "D") && sampled.CompareAndSwap(false, true) {
+						samples.Add(map[string]any{"scenario": sc.name, "seed": opNames(sc.seed), "history": names(append(append([]int{}, hist...), c)),
+							"fresh_decisions": decisions})
 					}
 					visit(c, key)
 				})
@@ -1228,11 +1262,12 @@ func main() {
 	distinct.Range(func(_, _ any) bool { nd++; return true })
 	run.Coverage["distinct_fresh_decision_vectors"] = nd
 	run.Coverage["probes_per_protocol_run"] = len(probes) * 4
+	run.Coverage["probe_order"] = probeNames() // positions of the fresh_decisions strings (A allow, D deny, u no longer authenticates, - no token)
 	run.Coverage["counters"] = map[string]int64{"worlds_built": stats.worlds.Load(), "oracle_evaluations": stats.oracleEvals.Load(), "fresh_manager_opens": stats.freshOpens.Load(),
 		"oracle_memo_hits": stats.memoHits.Load(), "parent_state_replays": stats.replays.Load(), "self_loop_transitions_reusing_parent": stats.selfLoops.Load(), "ops_ok": stats.opsOK.Load(), "ops_returned_error": stats.opsErr.Load(), "permission_checks": stats.probeCalls.Load(),
 		"cluster_apply_materialise_errors": applyErr.Load(), "violations_confirmed_on_real_fresh_managers": stats.confirmations.Load(), "raw_violating_transition_classes": int64(len(reps))}
 	run.Coverage["alphabet"] = opNames(all)
-	run.Coverage["explanation"] = "state = history; every transition replays seed+history+op on fresh real managers over a fresh copy of a migrated SQLite file, running the probe protocol after every op; states de-duplicated by sorted dump of all auth/RBAC tables + permCache + tokenCache + verified-token cache with ids renamed to slot names; the fresh-manager reference is memoised per raw table dump (it is a function of the stored state only)"
+	run.Coverage["explanation"] = "state = history; every transition replays seed+history+op on fresh real managers over a fresh copy of a migrated SQLite file, running the probe protocol after every op; states de-duplicated by sorted dump of all auth/RBAC tables + permCache + tokenCache + verified-token cache with ids renamed to slot names; the fresh-manager reference (cold single + cold batch on brand-new managers over the same file) is a function of the stored state only and is memoised per table dump; every disagreement is re-evaluated on real fresh managers over the very file of the failing history before it is recorded"
 	if nd < 2 {
 		fmt.Println("VACUITY WARNING: fewer than 2 distinct decision vectors")
 	}
@@ -1244,17 +1279,75 @@ func main() {
 	run.Assume("cluster-apply mode: single node that is the Raft leader; the proposer applies each command synchronously through the real ClusterFSM whose callbacks call the real Apply* materialisers as cmd/arc/main.go wires them; hashicorp/raft replication and follower lag are not explored")
 	run.Assume("a decision is the Allowed bit obtained as the HTTP path obtains it: AuthManager.VerifyToken(token value) then RBACManager.CheckPermission / CheckPermissionsBatch with that TokenInfo; a value that no longer authenticates is its own outcome; Source/Reason strings are not compared")
 	exit()
-	stopProf()
 	run.Finish()
 }
 
-var stopProf = func() {}
+// replay re-executes the operation list of a replay artefact (no exploration) and prints what disagrees.
+func replay(run *ev.Run) {
+	b, err := os.ReadFile(run.Replay)
+	if err != nil {
+		unbound("replay file: " + err.Error())
+	}
+	var art struct {
+		Raw    json.RawMessage `json:"replay"`
+		Replay struct {
+			Mode       string   `json:"mode"`
+			Oracle     string   `json:"oracle"`
+			Operations []string `json:"operations"`
+		} `json:"-"`
+	}
+	if err := json.Unmarshal(b, &art); err != nil {
+		unbound("replay file: " + err.Error())
+	}
+	var raw map[string]any
+	if err := json.Unmarshal(art.Raw, &art.Replay); err != nil || json.Unmarshal(art.Raw, &raw) != nil || len(art.Replay.Operations) == 0 {
+		unbound("replay file: not a C20 artefact")
+	}
+	mode := direct
+	if art.Replay.Mode == modeName[cluster] {
+		mode = cluster
+	}
+	var items []int
+	for _, n := range art.Replay.Operations {
+		if n == "check" {
+			items = append(items, check)
+		} else if i, ok := opIndex[n]; ok {
+			items = append(items, i)
+		} else {
+			unbound("replay file: unknown operation " + n)
+		}
+	}
+	after := runItems(mode, items)[art.Replay.Oracle]
+	before := runItems(mode, items[:len(items)-1])[art.Replay.Oracle]
+	var idx []int
+	for i := range after {
+		if _, was := before[i]; !was {
+			idx = append(idx, i)
+		}
+	}
+	sort.Ints(idx)
+	fmt.Printf("replay mode=%s oracle=%s ops=%v: %d probe(s) newly disagree after the last operation\n", modeName[mode], art.Replay.Oracle, art.Replay.Operations, len(idx))
+	for _, i := range idx {
+		fmt.Println("  ", after[i])
+	}
+	if len(idx) > 0 {
+		run.Violate(fmt.Sprintf("%s|%s|%s", art.Replay.Oracle, modeName[mode], strings.Join(names(items), ";")), "replayed operation list still violates the oracle", raw)
+	}
+}
 
 func head(s []string, n int) []string {
 	if len(s) > n {
 		return s[:n]
 	}
 	return s
+}
+
+func probeNames() []string {
+	var o []string
+	for _, p := range probes {
+		o = append(o, p.String())
+	}
+	return o
 }
 
 func opNames(l []int) []string {
